@@ -1013,6 +1013,56 @@ fn probe_date_flag(ctx: &mut Ctx) {
     check_request(ctx, &mut rng, &corpus, &nodes, Q::Sel(0));
 }
 
+/// generated family: a PLAIN `histogram` (not `date_histogram`) on the date field — the request is
+/// in milliseconds, the column in nanoseconds, `normalize_histogram_req` converts interval, offset
+/// and BOTH kinds of bounds before anything reads them — with hard_bounds / extended_bounds /
+/// offset / min_doc_count 0, 1, default, at top level and below a terms aggregation, over 1, 2 and
+/// 3 segments that all hold dates (so that none of the recorded date-flag situations applies:
+/// no absent column, no min_doc_count-0 terms parent, no gap-filling parent).  Single-valued
+/// documents: the per-value counting finding cannot explain anything here.  Judged by the exact
+/// direct evaluator like every generated request.
+fn probe_plain_histogram_on_dates(ctx: &mut Ctx) {
+    let base_ms = 1_600_000_000_000i64;
+    let rounds = ctx.budget(3, 12);
+    for round in 0..rounds {
+        let mut rng = Rng::new(0xD47E_0000 + round);
+        let n = 12 + rng.usize_below(20);
+        let mut docs: Vec<MDoc> = vec![];
+        for i in 0..n {
+            let mut d: MDoc = vec![vec![]; NF];
+            // whole seconds within ~2 minutes, a few repeated
+            d[Fd::D.id()] = vec![base_ms + rng.below(120) as i64 * 1000];
+            d[Fd::Kw.id()] = vec![kw_code_pub(rng.usize_below(3))];
+            d[Fd::Uid.id()] = vec![i as i64];
+            d[Fd::Sel.id()] = vec![0];
+            docs.push(d);
+        }
+        let all: Vec<usize> = (0..n).collect();
+        let two = vec![all[..n / 2].to_vec(), all[n / 2..].to_vec()];
+        let three = vec![all.iter().cloned().filter(|i| i % 3 == 0).collect::<Vec<_>>(), all.iter().cloned().filter(|i| i % 3 == 1).collect(), all.iter().cloned().filter(|i| i % 3 == 2).collect()];
+        let corpus = mk_corpus(docs, vec![vec![all.clone()], two, three]);
+        let reqs = ctx.budget(8, 16);
+        for _ in 0..reqs {
+            let interval = *rng.pick(&[1000i64, 2000, 5000, 10_000, 60_000]);
+            let lo = base_ms + rng.below(60) as i64 * 1000 - *rng.pick(&[0i64, 300, 500]);
+            let hi = lo + 1000 + rng.below(70) as i64 * 1000 + *rng.pick(&[0i64, 250, 999]);
+            let hard = if rng.chance(3, 4) { Some((lo, hi)) } else { None };
+            let mdc = match rng.below(3) { 0 => Some(0u64), 1 => Some(1), _ => None };
+            let ext = if mdc.unwrap_or(0) == 0 && rng.chance(1, 2) {
+                let (a, b) = match hard { Some((l, h)) => (l + rng.below(((h - l) / 2) as u64 + 1) as i64, h - rng.below(((h - l) / 2) as u64 + 1) as i64), None => (base_ms - 20_000 + rng.below(40) as i64 * 1000, base_ms + 100_000 + rng.below(60) as i64 * 1000) };
+                if a <= b { Some((a, b)) } else { None }
+            } else { None };
+            let offset = if rng.chance(1, 2) { Some(((rng.below(interval as u64 * 2 + 1) as i64 - interval) / 500 * 500) % interval) } else { None };
+            let hist = Node { name: "h".into(), agg: Agg::Hist { field: Fd::D, interval, offset, mdc, hard, ext, date_hist: false }, subs: vec![], opt: Opt::default() };
+            let nodes = if rng.chance(1, 2) { vec![hist] } else {
+                vec![Node { name: "t".into(), agg: Agg::Terms { field: Fd::Kw, size: Some(10), seg: None, mdc: None, order: Some(TOrd::KeyAsc), missing: None }, subs: vec![hist], opt: Opt::default() }]
+            };
+            ctx.report.count(&format!("probe:plain-histogram-on-date-field{}{}{}{}", if hard.is_some() { "+hard" } else { "" }, if ext.is_some() { "+ext" } else { "" }, if offset.is_some() { "+offset" } else { "" }, if nodes[0].name == "t" { ":below-terms" } else { "" }));
+            check_request(ctx, &mut rng, &corpus, &nodes, Q::All);
+        }
+    }
+}
+
 fn mk_corpus(docs: Vec<MDoc>, partitions: Vec<Vec<Vec<usize>>>) -> Corpus {
     let segs = partitions.iter().map(|p| (p.clone(), build_index(&docs, p))).collect();
     let split_parts = partitions.last().cloned().unwrap_or_default();
@@ -1139,6 +1189,7 @@ pub fn run(ctx: &mut Ctx) {
     probe_date_flag(ctx);
     probe_near_unique_terms(ctx);
     probe_sigma_placeholder(ctx);
+    probe_plain_histogram_on_dates(ctx);
     let corpora = ctx.budget(60, 2000);
     let reqs_per = ctx.budget(7, 12);
     for ci in 0..corpora {
